@@ -168,6 +168,7 @@ type Alpha struct {
 	FE       bool // front-end alphabets (C10, C14): {plain, required, two tests} × {valid, missing, nil, empty, failing, uncoercible}
 	Full     bool // C13: fully populated values only (no zero leaf, no empty slice, no nil pointer)
 	Lite     bool // reduced configuration/input alphabets (used where another dimension is added)
+	NegStr   bool // C05: the second test of a string node is the built-in negated test Not().Contains("2") instead of a TestFunc with the same predicate
 	MutPost  bool // C13: value-changing PostTransforms are part of the alphabet {none, one changing, changing + plain}
 }
 
@@ -188,6 +189,9 @@ func (a *Alpha) primCfgN(k Kind) int {
 
 func (a *Alpha) primCfg(n *Node, idx int) {
 	t1, t2 := kindTests(n.Kind)
+	if a.NegStr && n.Kind == KStr {
+		t2 = TestSpec{Code: "not_contained", Builtin: true, Pred: t2.Pred}
+	}
 	if a.FE {
 		n.Tests = []TestSpec{t2}
 		switch idx {
